@@ -91,7 +91,8 @@ func init() {
 	})
 	sso := []HarnessSpec{
 		{Name: "VH_C01_sso", Replay: "native", Unwind: 400, QuickOnly: true},
-		{Name: "VH_C01_sso_deep", Replay: "native", Unwind: 400, Thorough: true},
+		{Name: "VH_C01_sso", Replay: "native", Unwind: 400, Thorough: true},
+		{Name: "VH_C01_sso_deep", Replay: "native", Unwind: 400, Thorough: true, MaxPaths: 3000000},
 	}
 	ssoBounds := map[string]string{
 		"quick":    "Response root with signature none/valid/invalid; 0..2 children each one of {assertion (sig none/valid/invalid), EncryptedAssertion of such an assertion, EncryptedAssertion of a non-assertion / unparsable plaintext, wrapper element hiding a genuine signed assertion (plain or encrypted), assertion with a genuine signed assertion nested inside, unrelated element}; raw or DEFLATE presentation; every leaf string symbolic; rtvalidator and certificate-trust outcomes nondeterministic",
